@@ -101,5 +101,23 @@ check("A19 array truth value is ambiguous", ok)
 o = np.array([1.4, 2.6])
 np.rint(o, out=o)
 check("A20 rint(out=x) writes into x", o.tolist() == [1.0, 3.0])
+la = ma.array([1.0, 2.0, 3.0], mask=[False, True, False])
+lb = ma.array([5.0, 0.0, 1.0], mask=[False, False, True])
+r = ma.minimum.reduce([la, lb], axis=0)
+check("A21 ma.<ufunc>.reduce(list): plain ndarray, masks dropped, hidden data used", type(r) is np.ndarray and r.tolist() == [1.0, 0.0, 1.0])
+r = ma.average([la, lb], axis=0, weights=[1, 3])
+check("A21 ma.average/ma.mean(list, axis=0): stacked with one mask per layer - a cell missing in one input only comes out present", isinstance(r, ma.MaskedArray) and not np.any(ma.getmaskarray(r)) and r.tolist() == [4.0, 0.0, 3.0])
+check("A21 numpy.mean(list, axis=0): plain, hidden data used", type(np.mean([la, lb], axis=0)) is np.ndarray)
+f64 = ma.array([1.0, 2.0])
+check("A22 astype(copy=False) returns the array itself when the element type already matches", f64.astype(float, copy=False) is f64 and ma.array([1, 2]).astype(float, copy=False).dtype.kind == "f")
+src = ma.array([0.0, 1.0, 0.0, 2.0], mask=[False, False, True, False])
+before = src.mask.tolist()
+v = ma.masked_equal(src, 0, copy=False)
+check("A23 masked_equal(m, v, copy=False) writes the new mask into m's own mask buffer", src.mask.tolist() != before and src.mask.tolist() == [True, False, True, False])
+buf = np.empty((2, 2), dtype=np.array([1, 2]).dtype)
+buf[1] = np.array([0.5, 1.5])
+check("A4' an item store casts silently to the buffer's dtype (float layer into an integer buffer is truncated)", buf[1].tolist() == [0, 1])
+gm = ma.array([1.0, 2.0], mask=[False, True])
+check("A24 ma.getmaskarray(m) is m's own mask buffer when m has a mask", ma.getmaskarray(gm) is gm.mask or np.shares_memory(ma.getmaskarray(gm), gm.mask))
 print("%d axiom check(s) failed" % len(FAIL))
 sys.exit(1 if FAIL else 0)
